@@ -245,7 +245,7 @@ func emitWork(r ruleT, obs []obsW, class string) {
 	items := make([]string, len(obs))
 	pos := 0
 	for i, o := range obs {
-		items[i] = fmt.Sprintf("(%d,%d,%d)", o.wd, o.ns, o.res)
+		items[i] = fmt.Sprintf("(mkW %d %d %d)", o.wd, o.ns, o.res)
 		if o.res > 0 {
 			pos++
 		}
@@ -316,7 +316,7 @@ func runWork() {
 			emit, sub := false, 0
 			switch {
 			case thorough:
-				emit, sub = special[days] || (days+pi)%4 == 0, 0
+				emit, sub = (special[days] && pi%2 == 0) || (days*7+pi)%9 == 0, 40
 			case special[days]:
 				emit, sub = (days+pi)%2 == 0, 14
 			default:
@@ -351,7 +351,7 @@ func runWork() {
 	// random rules (any bytes) x random instants
 	n := 3000
 	if thorough {
-		n = 60000
+		n = 20000
 	}
 	for i := 0; i < n; i++ {
 		r := ruleT{rng.Intn(256), rng.Intn(26), rng.Intn(64), rng.Intn(26), rng.Intn(64)}
@@ -460,12 +460,15 @@ func runJitter() {
 		out.Add(fmt.Sprintf("CJitN %d %d", sleep, nmax), "jitter/int63n-range", true, map[string]interface{}{"sleep_ns": sleep})
 		for j := 0; j < 256; j++ {
 			// scripted draws
-			gates := []uint32{0, 99}
-			if j >= 1 && j <= 100 {
+			// the gate that lets the jitter through (j-1) comes last: the Coq-side selection
+			// below keeps the tail of the list
+			gates := []uint32{99}
+			if j >= 1 && j < 100 {
+				gates = append(gates, uint32(j))
+			}
+			gates = append(gates, 0)
+			if j >= 2 && j <= 100 {
 				gates = append(gates, uint32(j-1))
-				if j < 100 {
-					gates = append(gates, uint32(j))
-				}
 			}
 			dvals := []int64{0}
 			if nmax > 1 {
@@ -521,13 +524,24 @@ func runJitter() {
 						if delay != sleep {
 							nontriv = true
 						}
-						items = append(items, fmt.Sprintf("(%d,%d,%d,%d,%d)", g, d, sg, delay, ds.used))
+						items = append(items, fmt.Sprintf("(mkJ %d %d %d %s %d)", g, d, sg, vh.Z(delay), ds.used))
 					}
 				}
 			}
 			// Coq side: every jitter value for the small sleeps, a rotating selection for the rest
-			emit := thorough || j <= 2 || (j >= 98 && j <= 102) || j == 255 || j == 50 || (j+si)%8 == 0
+			emit := (thorough && (j+si)%3 == 0) || j <= 2 || (j >= 99 && j <= 101) || j == 255 || j == 50 || (j+si)%16 == 0
 			if emit {
+				if !thorough && (j == 0 || j > 100) && len(items) > 4 {
+					// no draw is consumed: the first and the last script say it all
+					items = []string{items[0], items[1], items[len(items)-2], items[len(items)-1]}
+				} else if !thorough && len(items) > 16 {
+					// keep the wrap-edge scripts (appended last) and a rotating selection of the rest
+					keep := items[len(items)-8:]
+					for k := 0; k < 8; k++ {
+						keep = append(keep, items[(j+k*5)%(len(items)-8)])
+					}
+					items = keep
+				}
 				out.Add(fmt.Sprintf("CJit %d %d %s", sleep, j, vh.List(items)), jitClass(sleep, j), nontriv,
 					map[string]interface{}{"sleep_ns": sleep, "jitter": j, "draw_scripts": len(items)})
 			} else {
@@ -792,7 +806,7 @@ func runScenario(sc *scenT, class string) {
 	var evc []string
 	after := 0
 	for i, e := range events {
-		evc = append(evc, fmt.Sprintf("(%d,%s)", e.T, vh.B(e.Notice)))
+		evc = append(evc, fmt.Sprintf("(mkE %s %s)", vh.Z(e.T), vh.B(e.Notice)))
 		rel := "at or before"
 		if sc.K.Kill != nil && e.T > *sc.K.Kill {
 			rel = fmt.Sprintf("%d ns AFTER", e.T-*sc.K.Kill)
